@@ -1,4 +1,5 @@
 """C17 — configuration loading is format-independent and agrees with encoding/json."""
+import concurrent.futures
 import copy
 import json
 import os
@@ -52,18 +53,28 @@ def St(*fs):
     return {"k": "struct", "f": list(fs)}
 
 
-def O(**kw):
-    o = {"opt": False, "dep": None, "neg": False, "def": None, "range": None, "options": None, "str": False}
-    o.update(kw)
-    return o
+def Arr(n, e):
+    return {"k": "arr", "n": n, "e": e}
+
+
+def Nm(name):
+    return {"k": "named", "name": name}
 
 
 def F(key, t, o=None):
     return {"key": key, "t": t, "o": o}
 
 
-def E(fs, tag=None, eopt=False, eptr=False):
-    return {"emb": True, "tag": tag, "f": list(fs), "eopt": eopt, "eptr": eptr}
+def E(fs, tag=None, eopt=False, eptr=False, name=None):
+    """an anonymous struct field; name: one of the declared struct types of harness/c17t instead of fs"""
+    if name is not None:
+        fs = NAMED[name]["f"]
+    return {"emb": True, "tag": tag, "f": list(fs), "eopt": eopt, "eptr": eptr, "name": name or ""}
+
+
+def ET(name):
+    """an anonymous field of a declared NON-struct type (harness/c17t: C17<name>)"""
+    return {"embt": True, "key": "C17" + name, "t": Nm(name), "o": None}
 
 
 def R(s):
@@ -71,10 +82,95 @@ def R(s):
     return {"li": s[0] == "[", "l": l or None, "r": r or None, "ri": s[-1] == "]"}
 
 
-def deref(t):
-    while t["k"] == "ptr":
-        t = t["e"]
+def O(**kw):
+    o = {"opt": False, "dep": None, "neg": False, "def": None, "range": None, "options": None, "str": False}
+    o.update(kw)
+    return o
+
+
+# the types declared in harness/c17t/types.go, by structure (every case that uses one is checked
+# against reflect's view of the built type: `tdesc`)
+NAMED = {
+    "Node": St(F("Host", P("string")), F("maxConn", P("int")), F("tags", Sl(P("string")), O(opt=True))),
+    "Inner": St(F("logLevel", P("string"), O(**{"def": "info"})), F("Port", P("int"))),
+    "MyInt": P("int"), "MyU8": P("uint8"), "MyStr": P("string"), "MyF64": P("float64"), "MyBool": P("bool"),
+    "Alias": P("int64"),
+}
+NAMED["Nodes"] = Sl(Ptr(Nm("Node")))
+NAMED["NodeMap"] = Mp(Nm("Node"))
+NAMED["NodePtr"] = Ptr(Nm("Node"))
+NAMED["Pair"] = Arr(2, Nm("Node"))
+WIDE_LEAVES = ("dur", "num", "any", "bytes")
+
+
+def unname(t):
+    """the structure of a type, declared names expanded"""
+    while t["k"] == "named":
+        t = NAMED[t["name"]]
     return t
+
+
+def deref(t):
+    t = unname(t)
+    while t["k"] == "ptr":
+        t = unname(t["e"])
+    return t
+
+
+def render_tag(f):
+    segs = [f["key"]]
+    o = f.get("o")
+    if o:
+        if o["opt"]:
+            segs.append(("optional=" + ("!" if o["neg"] else "") + o["dep"]) if o["dep"] is not None else "optional")
+        if o["def"] is not None:
+            segs.append("default=" + o["def"])
+        if o["range"] is not None:
+            r = o["range"]
+            segs.append("range=%s%s:%s%s" % ("[" if r["li"] else "(", r["l"] or "", r["r"] or "", "]" if r["ri"] else ")"))
+        if o["options"]:
+            segs.append("options=" + "|".join(o["options"]))
+        if o["str"]:
+            segs.append("string")
+    return ",".join(segs)
+
+
+def gq(s):
+    """strconv.Quote for the ASCII tags used here"""
+    return json.dumps(s)
+
+
+def describe(t):
+    """what harness/c17t C17Describe prints for the built reflect.Type"""
+    t = unname(t)
+    k = t["k"]
+    if k == "ptr":
+        return "*" + describe(t["e"])
+    if k == "slice":
+        return "[]" + describe(t["e"])
+    if k == "arr":
+        return "[%d]%s" % (t["n"], describe(t["e"]))
+    if k == "map":
+        return "map[string]" + describe(t["e"])
+    if k == "struct":
+        return describe_fields(t["f"])
+    return k
+
+
+def describe_fields(fs):
+    parts = []
+    for f in fs:
+        if f.get("emb"):
+            tag = (f.get("tag") or "") + (",optional" if f.get("eopt") else "")
+            if f.get("name"):
+                # a declared struct type keeps its own tags (NAMED: keys as conf sees them)
+                pass
+            parts.append("embed %s %s%s" % (gq(tag), "*" if f.get("eptr") else "", describe_fields(f["f"])))
+        elif f.get("embt"):
+            parts.append("embed %s %s" % (gq(""), describe(f["t"])))
+        else:
+            parts.append("%s %s" % (gq(render_tag(f)), describe(f["t"])))
+    return "struct{" + "; ".join(parts) + "}"
 
 
 NULL = {"null": 1}
@@ -411,12 +507,17 @@ def std_shapes_v(t, v, shapes):
 # ---------------------------------------------------------------------------- pending fix: nested map layers in conf.buildFieldsInfo
 
 FIX_ID = "F19-nested-map-field-info"
+FIX_ANON = "F20-anonymous-slice-field-info"       # buildAnonymousFieldInfo: anonymous slice-typed field
+FIX_DUR = "F21-duration-from-number-panic"        # a number for a time.Duration field panicked
+FIX_MBOOL = "F22-map-of-declared-bool-panic"      # map[string]MyBool panicked in SetMapIndex
 
 
-def fix_landed():
+def fix_landed(fid=FIX_ID):
+    """the shapes on which a repaired defect shows are generated only once the repair is registered
+    (kind:"fixed" line in KNOWN_FINDINGS.jsonl); from then on reverting it is a VIOLATION"""
     if os.environ.get("VERIF_C17_FIX") in ("0", "1"):      # testing aid (mutation self-test of the pending repair)
         return os.environ["VERIF_C17_FIX"] == "1"
-    return any(e.get("property") == "C17" and e.get("kind") == "fixed" and e.get("id") == FIX_ID for e in vlib.load_known())
+    return any(e.get("property") == "C17" and e.get("kind") == "fixed" and e.get("id") == fid for e in vlib.load_known())
 
 
 def all_keys(d, acc):
@@ -476,6 +577,10 @@ STRINGS = ["", "x", "hello world", "yes", "no", "on", "null", "~", "true", "1.0"
 ENV_STRINGS = ["${C17_A}", "$C17_B", "pre-${C17_A}-post", "http://$C17_B/x", "${C17_UNSET}", "$C17_A$C17_B", "cost 5$",
                "${C17_A}${C17_UNSET}"]
 ENV_VALUES = ["valueA", "b-2.x/y", "Zz_9", "srv.local:8080x", "w"]
+ENV_MAP_KEYS = ["$C17_A", "${C17_B}k", "pre$C17_A", "${C17_UNSET}u"]      # os.ExpandEnv works on the text: keys too
+PROP_VALUES = ["plain", "${C17_A}", "$C17_B", "pre-${C17_A}-post", "http://$C17_B/x", "${C17_UNSET}", "$C17_A$C17_B", "cost 5$",
+               "a b  c", "tcp(${C17_A}:3306)/db"]
+PROP_KEYS = ["k1", "db.url", "k$C17_A", "Mixed.Key", "${C17_B}"]
 FLOATS = ["1.5", "0.25", "-3.75", "2.5e3", "1e-7", "2.5e21", "123456.789", "0.1", "-0.000123", "1.50", "3.14159265358979",
           "1.25e-10", "6.02e23", "0.5", "99.99", "1e-3", "12.0e-1", "7.0e-1"]
 INT_FLOATS = ["1.0", "2e2", "-4.0", "1e19", "0.0", "1.5e1"]
@@ -509,11 +614,13 @@ class Gen:
         if depth >= 1 and rng.random() < 0.06:
             # multi-layer containers of structs (conf's "multi layer map" key lower-casing)
             st = St(*self.gen_fields(0, plain, rng.randint(1, 2), allow_embed=False))
-            return rng.choice([Mp(Mp(st)), Sl(Mp(st)), Mp(Sl(st)), Mp(st), Sl(st)])
+            return rng.choice([Mp(Mp(st)), Sl(Mp(st)), Mp(Sl(st)), Mp(st), Sl(st),
+                               Sl(Ptr(st)), Sl(Ptr(Ptr(st))), Mp(Ptr(st)), Mp(Sl(Ptr(st))), Sl(Sl(Ptr(st))), Ptr(Ptr(st)),
+                               Mp(Mp(Ptr(st))), Sl(Mp(Ptr(Ptr(st))))])
         if depth <= 0 or r < 0.5:
             return P(self.prim())
         if r < 0.58:
-            return Ptr(P(self.prim()))
+            return Ptr(P(self.prim())) if rng.random() < 0.8 else Ptr(Ptr(P(self.prim())))
         if r < 0.72:
             e = self.gen_type(depth - 1, plain)
             if e["k"] == "uint8":
@@ -650,6 +757,8 @@ class Gen:
                 return rng.choice([ds("x"), dl(), di(1)])
             n = rng.choice([0, 1, 2, 2])
             keys = rng.sample(MAP_KEYS, n)
+            if with_env and keys and rng.random() < 0.4:
+                keys[0] = rng.choice(ENV_MAP_KEYS)
             return dm(*[(kk, self.value(t0["e"], True, with_env, std)) for kk in keys])
         return self.scalar(k, elem, with_env)
 
@@ -687,7 +796,7 @@ class Gen:
         t = deref(t)
         if t["k"] == "struct":
             return self.recase_doc(t["f"], v)
-        if t["k"] == "slice" and "l" in v:
+        if t["k"] in ("slice", "arr") and "l" in v:
             return {"l": [self.recase_value(t["e"], e) for e in v["l"]]}
         if t["k"] == "map" and "m" in v:
             return {"m": [{"k": kv["k"], "v": self.recase_value(t["e"], kv["v"])} for kv in v["m"]]}
@@ -712,6 +821,8 @@ class Gen:
             if rng.random() < 0.7:
                 env["C17_B"] = rng.choice(ENV_VALUES)
             c["env"] = env
+            ks = rng.sample(PROP_KEYS, rng.randint(1, 4))
+            c["props"] = [[k, rng.choice(PROP_VALUES)] for k in ks]
         return c
 
     def std_case(self):
@@ -755,12 +866,345 @@ def lower_collisions(case):
     return any(chk(case["type"], d) for d in [case["doc"]] + ([case["doc2"]] if case.get("doc2") else []))
 
 
+# ---------------------------------------------------------------------------- wide type shapes (Shapes.v)
+
+def cxtype(t):
+    t = unname(t)
+    k = t["k"]
+    if k == "ptr":
+        return "(XPtr %s)" % cxtype(t["e"])
+    if k == "slice":
+        return "(XSlice %s)" % cxtype(t["e"])
+    if k == "arr":
+        return "(XArr %d %s)" % (t["n"], cxtype(t["e"]))
+    if k == "map":
+        return "(XMap %s)" % cxtype(t["e"])
+    if k == "struct":
+        return "(XStruct %s)" % cxfields(t["f"])
+    if k in WIDE_LEAVES:
+        return {"dur": "XDur", "num": "XNum", "any": "XAny", "bytes": "XBytes"}[k]
+    return "(XPrim %s)" % CK[k]
+
+
+def cxfields(fs):
+    s = "XNil"
+    for f in reversed(fs):
+        if f.get("emb"):
+            s = "(XEmbed %s %s %s %s)" % (cbool(f.get("eopt", False)), cbool(f.get("eptr", False)), cxfields(f["f"]), s)
+        elif f.get("embt"):
+            s = "(XEmbedT %s %s %s)" % (cstr(f["key"]), cxtype(f["t"]), s)
+        else:
+            s = "(XCons %s %s %s %s)" % (cstr(f["key"]), copts(f["o"]), cxtype(f["t"]), s)
+    return s
+
+
+def cfinfo(i):
+    if i is None:
+        return "None"
+    return "(Some %s)" % cfinfo1(i)
+
+
+def cfinfo1(i):
+    return "(FI %s %s)" % (clist(["(%s, %s)" % (cstr(k), cfinfo1(v)) for k, v in sorted(i["c"].items())]),
+                           copt(cfinfo1(i["m"]) if i.get("m") else None))
+
+
+def cobx(r):
+    if r is None:
+        return "XErr"
+    if r["verdict"] == "ok":
+        return "(XOk %s)" % cstr(json.dumps(r["val"], sort_keys=True))
+    return "XPanic" if r["verdict"] == "panic" else "XErr"
+
+
+def cobx3(m):
+    return "(mkObx3 %s %s %s)" % (cobx(m.get("json")), cobx(m.get("yaml")), cobx(m.get("toml")))
+
+
+def clc(text):
+    if not text:
+        return "None"
+    return "(Some %s)" % cjv(parse_mid(text))
+
+
+SHAPE_KEYS = ["NodeList", "Upstreams", "byName", "Peers", "DataSource", "etcdHosts", "Routes", "cacheConf"]
+SHAPE_MAPKEYS = ["Kk", "Host", "maxConn", "zone-A", "UPPER", "x1"]
+CTORS = ["ptr", "ptr2", "slice", "arr", "map"]
+
+
+def all_chains(maxlen=3):
+    res = [()]
+    frontier = [()]
+    for _ in range(maxlen):
+        frontier = [c + (x,) for c in frontier for x in CTORS]
+        res += frontier
+    return res
+
+
+CHAINS = all_chains()
+
+
+def apply_chain(chain, leaf):
+    t = leaf
+    for c in reversed(chain):
+        if c == "ptr":
+            t = Ptr(t)
+        elif c == "ptr2":
+            t = Ptr(Ptr(t))
+        elif c == "slice":
+            t = Sl(t)
+        elif c == "arr":
+            t = Arr(2, t)
+        else:
+            t = Mp(t)
+    return t
+
+
+def ptr_to_container(t):
+    """a pointer whose target is a slice / array / map occurs in the type: mapping panics or errs on
+    such fields whatever the document says (outside C08's and C17's family); only the conf layer
+    (white-box) is exercised on them"""
+    t = unname(t)
+    k = t["k"]
+    if k == "ptr":
+        e = unname(t["e"])
+        return e["k"] in ("slice", "arr", "map") or ptr_to_container(e)
+    if k in ("slice", "arr", "map"):
+        return ptr_to_container(t["e"])
+    if k == "struct":
+        return any(ptr_to_container(f["t"]) for f in flat_fields(t["f"]))
+    return False
+
+
+class ShapeGen:
+    """the TYPE-SHAPE family: every nesting of {*T, **T, []T, [2]T, map[string]T} up to depth 3 over a
+    struct with mixed-case keys (anonymous struct type, declared Node, struct with embedded members) or
+    over a scalar-like leaf (declared MyInt.., time.Duration, json.Number, any, []byte), as a named
+    field, inside an embedded struct / embedded pointer, below another struct; plus the declared
+    container types (Nodes, NodeMap, NodePtr, Pair), also as anonymous fields."""
+
+    def __init__(self, rng, dur_numbers, anon_slices, map_bool):
+        self.rng = rng
+        self.dur_numbers = dur_numbers
+        self.anon_slices = anon_slices
+        self.map_bool = map_bool
+
+    def leaf_struct(self):
+        rng = self.rng
+        r = rng.random()
+        if r < 0.3:
+            return Nm("Node")
+        if r < 0.55:
+            return St(F("Host", P("string")), F("logLevel", P("string"), O(**{"def": "info"})),
+                      F("MaxConns", P("int"), O(opt=True)))
+        if r < 0.75:   # embedded members, incl. a pointer to a declared struct
+            return St(F("ID", Nm("MyInt")), E([], name="Inner", eptr=rng.random() < 0.5),
+                      E([F("ExtraKey", P("bool"), O(opt=True))]))
+        if r < 0.9:    # wide leaves inside
+            return St(F("Timeout", P("dur")), F("Ratio", P("num"), O(opt=True)), F("Meta", Mp(P("any")), O(opt=True)),
+                      F("Blob", P("bytes"), O(opt=True)), F("Kind", Nm("MyStr"), O(opt=True)))
+        return St(F("Sub", St(F("DeepKey", Nm("Alias")), F("W", Nm("MyF64"), O(opt=True)))),
+                  F("On", Nm("MyBool"), O(opt=True)))
+
+    def leaf_scalar(self):
+        return self.rng.choice([Nm("MyInt"), Nm("MyStr"), Nm("MyF64"), Nm("MyBool"), Nm("Alias"), P("dur"), P("num"),
+                                P("any"), P("bytes"), P("int"), P("string"), Nm("MyU8")])
+
+    def place(self, key, t):
+        """the struct type around the field under test"""
+        rng = self.rng
+        r = rng.random()
+        f = F(key, t)
+        other = F("svcName", P("string"), O(opt=True))
+        if r < 0.45:
+            return [other, f]
+        if r < 0.6:
+            return [E([f]), other]
+        if r < 0.72:
+            return [other, E([f], eptr=True)]
+        if r < 0.86:
+            return [F("Wrap", St(f, F("Note", P("string"), O(opt=True))))]
+        return [F("Outer", Ptr(St(E([f]), F("Note", P("string"), O(opt=True))))), other]
+
+    # ---- documents (keys spelled as in the type: mixed case)
+    def scalar(self, k):
+        rng = self.rng
+        if k == "dur":
+            if self.dur_numbers and rng.random() < 0.3:
+                return di(rng.choice([0, 1000, 1500000000]))
+            return ds(rng.choice(["1s", "500ms", "1h2m3s", "0", "2.5s", "soon"]))
+        if k == "num":
+            return rng.choice([ds("1.5"), ds("7"), di(3), ds("x")])
+        if k == "any":
+            return rng.choice([ds("v"), di(1), db(True), dm(("InnerKey", di(1))), dl(di(1), ds("x"))])
+        if k == "bytes":
+            return rng.choice([ds("aGVsbG8="), ds("hello!"), dl(di(1), di(2), di(255)), dl()])
+        if k == "bool":
+            return db(rng.random() < 0.5)
+        if k == "string":
+            return ds(rng.choice(["x", "info", "Mixed Case", ""]))
+        if k in FLOAT_KINDS:
+            return rng.choice([dfl("1.5"), di(2), dfl("0.25")])
+        if k == "uint8":
+            return di(rng.choice([0, 7, 255, 256]))
+        return di(rng.choice([0, 1, 42, -7]))
+
+    def value(self, t, in_any=False):
+        rng = self.rng
+        t = unname(t)
+        k = t["k"]
+        if k == "ptr":
+            return self.value(t["e"])
+        if k == "slice":
+            return dl(*[self.value(t["e"]) for _ in range(rng.choice([0, 1, 2, 2]))])
+        if k == "arr":
+            n = t["n"] if rng.random() < 0.8 else rng.choice([t["n"] - 1, t["n"] + 1])
+            return dl(*[self.value(t["e"]) for _ in range(n)])
+        if k == "map":
+            if unname(t["e"])["k"] == "any":
+                return dm(*[(kk, rng.choice([ds("v"), di(1), db(False), dm(("NestedKey", dl(di(1), dm(("Zz", ds("q")))))),
+                                             dl(ds("a"), di(2))])) for kk in rng.sample(SHAPE_MAPKEYS, rng.choice([1, 2]))])
+            return dm(*[(kk, self.value(t["e"])) for kk in rng.sample(SHAPE_MAPKEYS, rng.choice([0, 1, 2, 2]))])
+        if k == "struct":
+            pairs = []
+            for f in flat_fields(t["f"]):
+                o = f.get("o")
+                if o is not None and (o["opt"] or o["def"] is not None) and rng.random() < 0.4:
+                    continue
+                pairs.append((f["key"], self.value(f["t"])))
+            rng.shuffle(pairs)
+            return dm(*pairs)
+        return self.scalar(k)
+
+    def case(self, fields):
+        doc = self.value(St(*fields))
+        g = Gen(self.rng, "quick")
+        c = {"kind": "shape", "type": fields, "doc": doc, "doc2": g.recase_doc(fields, doc), "env": None,
+             "noload": any(ptr_to_container(f["t"]) for f in flat_fields(fields))}
+        return c
+
+    def chain_case(self, chain, structural):
+        leaf = self.leaf_struct() if structural else self.leaf_scalar()
+        if chain and chain[-1] in ("slice", "arr") and unname(leaf)["k"] == "uint8":
+            leaf = Nm("MyInt")           # []uint8 is the base64 path ("bytes" covers it)
+        inner = [c for c in chain if c not in ("ptr", "ptr2")]
+        if inner and inner[-1] == "map" and leaf.get("name") == "MyBool" and not self.map_bool:
+            leaf = Nm("MyStr")           # map[string]MyBool: only once its repair is registered
+        t = apply_chain(chain, leaf)
+        return self.case(self.place(self.rng.choice(SHAPE_KEYS), t))
+
+    def declared_case(self):
+        rng = self.rng
+        name = rng.choice(["Nodes", "NodeMap", "NodePtr", "Pair"])
+        r = rng.random()
+        if r < 0.4:
+            return self.case([F("Cluster", Nm(name)), F("svcName", P("string"), O(opt=True))])
+        if r < 0.7 and self.anon_slices:
+            nm = rng.choice(["Nodes", "NodeMap", "Pair", "MyInt", "MyStr"])
+            if nm == "NodeMap":      # reflect.StructOf refuses an embedded declared map type next to other fields
+                return self.case([ET(nm)])
+            return self.case([ET(nm), F("svcName", P("string"), O(opt=True))])
+        return self.case([F("ByZone", Mp(Nm(name))), F("Extra", Sl(Nm(name)), O(opt=True))])
+
+
+def shape_cases(rng, n, dur_numbers, anon_slices, map_bool):
+    """n cases: every chain of length <= 2 over a struct leaf, then a seed-dependent sample of the
+    length-3 chains and of the scalar-leaf / declared-container shapes"""
+    sg = ShapeGen(rng, dur_numbers, anon_slices, map_bool)
+    short = [c for c in CHAINS if len(c) <= 2]
+    long3 = [c for c in CHAINS if len(c) == 3]
+    cases = [sg.chain_case(c, True) for c in short]
+    while len(cases) < n:
+        r = rng.random()
+        if r < 0.55:
+            cases.append(sg.chain_case(rng.choice(long3), True))
+        elif r < 0.8:
+            cases.append(sg.chain_case(rng.choice(CHAINS), False))
+        else:
+            cases.append(sg.declared_case())
+    return cases[:n]
+
+
+# ---------------------------------------------------------------------------- hand-written texts
+
+def raw_corpus():
+    """hand-written renderings (instead of the printers' output) of a document, with the syntax the
+    printers never produce: YAML non-string keys, anchors / aliases / merge keys, a second document,
+    flow style, block scalars, 1.1 booleans, hex; TOML dotted keys, inline tables, arrays of tables,
+    literal / multi-line strings, underscores and 0x / 0o / 0b integers.  `doc` is the document all three
+    texts denote: the front ends must hand exactly shape(doc) to LoadFromJsonBytes and the loads agree."""
+    hp = St(F("Host", P("string")), F("Port", P("int")))
+    cs = []
+    cs.append({
+        "kind": "load", "env": None, "doc2": None,
+        "type": [F("Base", hp), F("Svc", hp), F("Names", Mp(P("string"))), F("Enabled", P("bool")), F("Mask", P("int")),
+                 F("Note", P("string"))],
+        "doc": dm(("Base", dm(("Host", ds("h1")), ("Port", di(1)))), ("Svc", dm(("Host", ds("h1")), ("Port", di(2)))),
+                  ("Names", dm(("1", ds("one")), ("true", ds("yes-str")), ("2.5", ds("f")))), ("Enabled", db(True)),
+                  ("Mask", di(16)), ("Note", ds("folded text"))),
+        "texts": {
+            "yaml": "# a comment\nBase: &b {Host: h1, Port: 1}\nSvc:\n  <<: *b\n  Port: 2\nNames:\n  1: one\n  true: yes-str\n"
+                    "  2.5: f\nEnabled: yes\nMask: 0x10\nNote: >-\n  folded\n  text\n---\nBase: {Host: other, Port: 9}\n",
+            "toml": "Enabled = true\nMask = 0x10\nNote = \"\"\"\nfolded \\\n   text\"\"\"\nBase = { Host = \"h1\", Port = 1 }\n"
+                    "Svc.Host = \"h1\"\nSvc.Port = 2\n\n[Names]\n1 = \"one\"\ntrue = \"yes-str\"\n\"2.5\" = \"f\"\n",
+            "json": " {\"Base\" : {\"Host\":\"h1\",\"Port\":1},\n\"Svc\":{\"Port\":2,\"Host\":\"\\u00681\"},\"Names\":{\"1\":\"one\","
+                    "\"true\":\"yes-str\",\"2.5\":\"f\"},\"Enabled\":true,\"Mask\":16,\"Note\":\"folded text\"}\n",
+        }})
+    node = St(F("Host", P("string")), F("Weight", P("int"), O(opt=True)))
+    cs.append({
+        "kind": "load", "env": None, "doc2": None,
+        "type": [F("Nodes", Sl(node)), F("DB", St(F("Mysql", St(F("DSN", P("string")))), F("Pool", P("int")))),
+                 F("Big", P("int64")), F("Path", P("string")), F("Ratio", P("float64"))],
+        "doc": dm(("Big", di(1000000)), ("Path", ds("C:\\temp\\x")), ("Ratio", dfl("2.5e-1")),
+                  ("DB", dm(("Mysql", dm(("DSN", ds("user@tcp(h)/db")))), ("Pool", di(5)))),
+                  ("Nodes", dl(dm(("Host", ds("a")), ("Weight", di(15))), dm(("Host", ds("b")))))),
+        "texts": {
+            "toml": "Big = 1_000_000\nPath = 'C:\\temp\\x'\nRatio = 2.5e-1\nDB.Mysql.DSN = \"user@tcp(h)/db\"\nDB.Pool = 0b101\n"
+                    "[[Nodes]]\nHost = \"a\"\nWeight = 0o17\n[[Nodes]]\nHost = \"b\"\n",
+            "yaml": "Big: 1000000\nPath: 'C:\\temp\\x'\nRatio: 2.5e-1\nDB:\n  Mysql: {DSN: user@tcp(h)/db}\n  Pool: 5\n"
+                    "Nodes:\n- Host: a\n  Weight: 15\n- {Host: b}\n",
+            "json": "{\"Big\":1000000,\"Path\":\"C:\\\\temp\\\\x\",\"Ratio\":2.5e-1,\"DB\":{\"Mysql\":{\"DSN\":\"user@tcp(h)/db\"},"
+                    "\"Pool\":5},\"Nodes\":[{\"Host\":\"a\",\"Weight\":15},{\"Host\":\"b\"}]}",
+        }})
+    q3 = "'" * 3
+    cs.append({
+        "kind": "load", "env": None, "doc2": None,
+        "type": [F("M", Mp(P("string"))), F("L", Sl(P("int"))), F("T", P("string"), O(opt=True))],
+        "doc": dm(("M", dm(("Key With Space", ds("it's")), ("k2", ds("tab\there")))), ("L", dl(di(1), di(2), di(3))),
+                  ("T", ds("line1\nline2\n"))),
+        "texts": {
+            "yaml": "M: {\"Key With Space\": 'it''s', k2: \"tab\\there\"}\nL: [1, 2,\n   3]\nT: |\n  line1\n  line2\n",
+            "toml": "L = [\n  1, 2, # c\n  3,\n]\nT = " + q3 + "\nline1\nline2\n" + q3 + "\n[M]\n\"Key With Space\" = \"it's\"\nk2 = \"tab\\there\"\n",
+            "json": "{\"M\":{\"Key With Space\":\"it's\",\"k2\":\"tab\\there\"},\"L\":[1,2,3],\"T\":\"line1\\nline2\\n\"}",
+        }})
+    return cs
+
+
+def bad_corpus():
+    """texts that are not a document (or not one the JSON bridge can carry: NaN, Inf): every loader
+    answers with an error — the error paths of TomlToJson / YamlToJson / encodeToJSON / jsonx"""
+    T = [F("a", P("float64"))]
+    bad = [
+        {"yaml": "a: [1, 2", "toml": "a = [1, 2", "json": "{\"a\": [1, 2"},
+        {"yaml": "a: b: c", "toml": "a = ", "json": "{\"a\": 1,}"},
+        {"yaml": "\ta: 1", "toml": "[a\nb = 1", "json": ""},
+        {"yaml": "- 1\n- 2\n", "toml": "a.b = 1\na = 2\n", "json": "[1,2]"},
+        {"yaml": "a: .nan\n", "toml": "a = nan\n", "json": "{\"a\": NaN}"},
+        {"yaml": "a: .inf\n", "toml": "a = -inf\n", "json": "{\"a\": Infinity}"},
+        {"yaml": "a: 'unterminated\n", "toml": "a = 1\na = 2\n", "json": "{\"a\":1 \"b\":2}"},
+        {"yaml": "a: *nope\n", "toml": "a = 1979-05-27T07:32:00Z\nb = \n", "json": "{'a':1}"},
+        {"yaml": "", "toml": "a = \"unterminated\n", "json": "null x"},
+    ]
+    return [{"kind": "bad", "type": T, "doc": dm(), "doc2": None, "env": None, "texts": t} for t in bad]
+
+
 # ---------------------------------------------------------------------------- the property
 
 class C17(Property):
     id = "C17"
     title = "Configuration loading is format-independent and agrees with encoding/json"
     quick_cases = 700
+    model_targets = ["theories/C17/Check.vo", "theories/C17/KnownCheck.vo"]
     thorough_cases = 9000
     design_ref = "DESIGN.md §6/C17"
     level = "proof"
@@ -793,6 +1237,18 @@ class C17(Property):
     def prepare(self, ctx):
         ok, res = vlib.go_build("c17")
         self.bin = res if ok else None
+        if ok:
+            # the white-box executor in core/conf uses the very same type builder: harness/c17t/types.go
+            # with its package clause rewritten
+            src = open(os.path.join(vlib.ROOT, "harness", "c17t", "types.go")).read()
+            txt, n = re.subn(r"(?m)^package c17t$", "package conf", src, count=1)
+            if n != 1:
+                return False, "harness/c17t/types.go: package clause not found"
+            d = os.path.join(vlib.ROOT, ".run", "c17-%d" % os.getpid())
+            os.makedirs(d, exist_ok=True)
+            self.types_copy = os.path.join(d, "verif_c17_types_test.go")
+            with open(self.types_copy, "w") as f:
+                f.write(txt)
         return ok, ("" if ok else res)
 
     # ---- cases
@@ -853,6 +1309,26 @@ class C17(Property):
                  "doc2": dm(("VALUE", dm(("first", dm(("User", dm(("user", ds("u")))))))), ("l", dl(dm(("User", dm(("User", ds("w")))))))),
                  "env": None},
             ]
+        cs += raw_corpus() + bad_corpus()
+        # regression witnesses of the type-shape class (seeded change C17-3 and the two repairs found with it)
+        node = lambda h, c: dm((h, ds("h1")), (c, di(3)))
+        cs.append({"kind": "shape", "type": [F("Nodes", Sl(Ptr(Nm("Node"))))], "env": None, "noload": False,
+                   "doc": dm(("Nodes", dl(node("Host", "maxConn"), node("HOST", "MaxConn")))),
+                   "doc2": dm(("nodes", dl(node("host", "maxconn"), node("host", "maxconn"))))})
+        cs.append({"kind": "shape", "type": [F("Peers", Arr(2, Ptr(Ptr(Nm("Node"))))), F("ByZone", Mp(Sl(Ptr(Mp(Nm("Node"))))))],
+                   "env": None, "noload": True,
+                   "doc": dm(("Peers", dl(node("Host", "maxConn"), node("Host", "maxConn"))),
+                             ("ByZone", dm(("Host", dl(dm(("maxConn", node("Host", "maxConn")))))))),
+                   "doc2": dm(("PEERS", dl(node("hOST", "MAXCONN"), node("host", "maxconn"))),
+                              ("byzone", dm(("Host", dl(dm(("maxConn", node("HOST", "maxconn"))))))))})
+        if fix_landed(FIX_ANON):
+            cs.append({"kind": "shape", "type": [ET("Nodes"), F("svcName", P("string"), O(opt=True))], "env": None, "noload": False,
+                       "doc": dm(("C17Nodes", dl(node("Host", "maxConn")))),
+                       "doc2": dm(("c17nodes", dl(node("host", "maxconn"))))})
+        if fix_landed(FIX_DUR):
+            cs.append({"kind": "shape", "type": [F("Timeout", P("dur")), F("Idle", Ptr(P("dur")), O(opt=True))], "env": None,
+                       "noload": False, "doc": dm(("Timeout", di(1000)), ("Idle", ds("1m"))),
+                       "doc2": dm(("TIMEOUT", di(1000)), ("idle", ds("1m")))})
         kids = vlib.known_ids(self.id)
         for kid, c in flagged:
             if kid in kids:        # kept out until the coordinator has added the known-finding line
@@ -866,63 +1342,132 @@ class C17(Property):
         self.skipped = getattr(self, "skipped", {})
         tries = 0
         landed = fix_landed()
-        while len(cases) < n and tries < 20 * n:
+        n_shape = max(40, n // 5)
+        n_main = n - n_shape
+        while len(cases) < n_main and tries < 20 * n:
             tries += 1
             c = g.load_case() if rng.random() < 0.62 else g.std_case()
             shapes = detect_shapes(c)
             if shapes:
-                for s in shapes:
-                    self.skipped[s] = self.skipped.get(s, 0) + 1
-                continue
+                # most instances of a registered deviation are left out; some are run, and must then be
+                # EXACTLY the registered deviation (known(): the model has to reproduce them)
+                if rng.random() < 0.85:
+                    for s_ in shapes:
+                        self.skipped[s_] = self.skipped.get(s_, 0) + 1
+                    continue
+                c["flag"] = sorted(shapes)[0]
             if c["kind"] == "load" and lower_collisions(c):
                 continue
             if not landed and nested_map_shape(c):      # only after the repair of buildFieldsInfo is in the tree
                 self.skipped[FIX_ID] = self.skipped.get(FIX_ID, 0) + 1
                 continue
             cases.append(c)
+        cases += shape_cases(rng, n_shape, fix_landed(FIX_DUR), fix_landed(FIX_ANON), fix_landed(FIX_MBOOL))
         return cases
 
     # ---- execution
+    def conf_overlay(self):
+        return {"core/conf/verif_c17_test.go": vlib.ROOT + "/harness/overlay/conf/verif_c17_test.go",
+                "core/conf/verif_c17_types_test.go": self.types_copy}
+
     def execute(self, cases, ctx):
         rc, out, res = vlib.go_run(self.bin, cases, tag="c17", timeout=900)
         if rc != 0 or len(res) != len(cases):
             raise ExecError("c17 executor rc=%s (%d/%d): %s" % (rc, len(res), len(cases), out[-2000:]))
-        sub = []
-        where = []
+        sub, where = [], []          # internal/encoding: what the front ends hand to LoadFromJsonBytes
+        wsub, wwhere = [], []        # core/conf: buildFieldsInfo / toLowerCaseKeyMap
         for i, (c, r) in enumerate(zip(cases, res)):
             if r.get("fail"):
                 raise ExecError("c17 executor: case %s: %s" % (c.get("id"), r["fail"]))
-            if c["kind"] != "load":
-                continue
-            sub.append({"id": len(sub), "texts": r["texts"], "env": c.get("env")})
-            where.append((i, "mid"))
-            if r.get("texts2"):
-                sub.append({"id": len(sub), "texts": r["texts2"], "env": None})
-                where.append((i, "mid2"))
-        if sub:
+            want = describe_fields(c["type"])
+            if r.get("tdesc") != want:
+                raise ExecError("c17 executor: case %s: the built type is not the generated one:\n  built     %s\n  generated %s"
+                                % (c.get("id"), r.get("tdesc"), want))
+            if c["kind"] == "load":
+                sub.append({"id": len(sub), "texts": r["texts"], "env": c.get("env")})
+                where.append((i, "mid"))
+                if r.get("texts2"):
+                    sub.append({"id": len(sub), "texts": r["texts2"], "env": None})
+                    where.append((i, "mid2"))
+            if c["kind"] in ("load", "shape"):
+                wsub.append({"id": len(wsub), "type": c["type"], "json": r["texts"]["json"],
+                             "json2": (r.get("texts2") or {}).get("json", "")})
+                wwhere.append(i)
+
+        def run_mid():
+            if not sub:
+                return []
             rc, out, rs = vlib.go_test_overlay("./internal/encoding", OVERLAY, "TestVerifC17$", sub, tag="c17mid", timeout=900)
             if rc != 0 or len(rs) != len(sub):
                 raise ExecError("c17 intermediate dump rc=%s (%d/%d): %s" % (rc, len(rs), len(sub), out[-2500:]))
-            for (i, slot), m in zip(where, rs):
-                res[i][slot] = m["mid"]
-                if slot == "mid" and m.get("midenv"):
-                    res[i]["midenv"] = m["midenv"]
+            return rs
+
+        def run_conf():
+            if not wsub:
+                return []
+            rc, out, rs = vlib.go_test_overlay("./core/conf", self.conf_overlay(), "TestVerifC17Conf$", wsub, tag="c17conf",
+                                               timeout=900)
+            if rc != 0 or len(rs) != len(wsub):
+                raise ExecError("c17 conf white-box run rc=%s (%d/%d): %s" % (rc, len(rs), len(wsub), out[-2500:]))
+            return rs
+
+        with concurrent.futures.ThreadPoolExecutor(max_workers=2) as ex:
+            f1, f2 = ex.submit(run_mid), ex.submit(run_conf)
+            rs, ws = f1.result(), f2.result()
+        for (i, slot), m in zip(where, rs):
+            res[i][slot] = m["mid"]
+            if slot == "mid" and m.get("midenv"):
+                res[i]["midenv"] = m["midenv"]
+        for i, w in zip(wwhere, ws):
+            if w.get("fail"):
+                raise ExecError("c17 conf white-box: case %s: %s" % (cases[i].get("id"), w["fail"]))
+            if w.get("tdesc") != res[i].get("tdesc"):
+                raise ExecError("c17 conf white-box: case %s: the two executors built different types" % cases[i].get("id"))
+            res[i]["white"] = {k: w.get(k) for k in ("infoerr", "info", "lc", "lc2", "lcerr")}
         for r in res:
             r.pop("id", None)
+        # known findings are suppressed only where the deviation is EXACTLY the registered one: the model
+        # (which has these behaviours, see the ..._refuted theorems) must reproduce every observation
+        flagged = [i for i, c in enumerate(cases) if c["kind"] in ("load", "std") and detect_shapes(c)]
+        if flagged:
+            terms = [self.coq_case(cases[i], res[i]) for i in flagged]
+            ks = vlib.coq_eval_cases(self.id, "C17.KnownCheck", terms)
+            for i, (a, p) in zip(flagged, ks):
+                res[i]["known_exact"] = bool(a and p)
         return res
 
     def coq_case(self, case, obs):
         if case["kind"] == "std":
             return "CaseStd %s %s %s %s" % (ccfields(case["type"]), cdoc(case["doc"]), cob(obs.get("mapping")),
                                             cob(obs.get("stdjson")))
+        if case["kind"] == "bad":
+            return "CaseBad %s %s" % (cfields(case["type"]), cob3(obs.get("load") or {}))
         d2 = case.get("doc2")
+        w = obs.get("white") or {}
+        info = "None"
+        if w:
+            info = "(Some %s)" % cfinfo(None if w.get("infoerr") else w.get("info"))
+        if case["kind"] == "shape":
+            return "CaseShape %s %s %s %s %s %s %s %s" % (
+                cxfields(case["type"]), cdoc(case["doc"]), copt(cdoc(d2) if d2 else None), info,
+                clc(w.get("lc")), clc(w.get("lc2")),
+                copt(cobx3(obs["load"]) if obs.get("load") else None),
+                copt(cobx3(obs["load2"]) if obs.get("load2") else None))
         env = case.get("env")
         ex = "None"
         if obs.get("byext") is not None:
-            ex = "(Some (mkExtra %s %s %s %s))" % (
+            props = []
+            for k, v in case.get("props") or []:
+                props.append("(%s, %s, %s, %s)" % (
+                    cstr(k), cstr(v),
+                    copt(cstr(obs["propsoff"][k]) if obs.get("propsoff") and k in obs["propsoff"] else None),
+                    copt(cstr(obs["propson"][k]) if obs.get("propson") and k in obs["propson"] else None)))
+            ex = "(Some (mkExtra %s %s %s %s %s %s %s %s %s))" % (
                 clist(["(%s, %s)" % (cstr(e), cob(r)) for e, r in sorted(obs["byext"].items())]),
                 clist(["(%s, %s)" % (cstr(e), cob(r)) for e, r in sorted((obs.get("must") or {}).items())]),
-                cob(obs.get("fill")), copt(cob3(obs["envref"]) if obs.get("envref") else None))
+                cob(obs.get("fill")), copt(cob3(obs["envref"]) if obs.get("envref") else None),
+                clist(["(%s, %s)" % (cstr(e), cob(r)) for e, r in sorted((obs.get("depr") or {}).items())]),
+                clist(props), info, clc(w.get("lc")), clc(w.get("lc2")))
         return "CaseLoad %s %s %s %s %s %s %s %s %s %s %s %s" % (
             cfields(case["type"]), cdoc(case["doc"]),
             copt(cdoc(d2) if d2 else None),
@@ -937,6 +1482,11 @@ class C17(Property):
 
     # ---- reporting
     def known(self, case, obs):
+        """a registered deviation is suppressed only if (1) the case has the registered shape and (2) the
+        model, which has exactly the registered behaviour, reproduces EVERYTHING that was observed, and
+        what fails is only the comparison the finding is about (C17/KnownCheck.v)"""
+        if case["kind"] not in ("load", "std") or not obs.get("known_exact"):
+            return None
         shapes = detect_shapes(case)
         for kid in (K_F8A, K_ELEM, K_EMB, K_DUP, K_MAP, K_NULLS):
             if kid in shapes:
